@@ -719,6 +719,19 @@ func genPubItem(t *rapid.T, spec *SysSpec, bad string, fixed ...*RouteSpec) PubI
 		// already says which endpoint is meant (the wire keeps the route)
 	case "unknown_route":
 		it.Route = "/no/such/route"
+		// near misses of a configured route (managed ones included): another spelling is another route
+		base := spec.Routes[rapid.IntRange(0, len(spec.Routes)-1).Draw(t, "nearroute.of")].Path
+		cands := []string{it.Route, it.Route, base + "/", "/" + base, base[:1] + "./" + base[1:], strings.ToUpper(base), base + "/../" + strings.TrimPrefix(base, "/")}
+		c := cands[rapid.IntRange(0, len(cands)-1).Draw(t, "nearroute")]
+		known := false
+		for _, rr := range spec.Routes {
+			if rr.Path == c {
+				known = true
+			}
+		}
+		if !known {
+			it.Route = c
+		}
 	case "publish_disabled":
 		for _, rr := range spec.Routes {
 			if rr.PublishOff || rr.DirectOff {
